@@ -382,8 +382,15 @@ impl<'a> MessageSet<'a> {
             req_offset,
             validate_crc,
         )?;
+        // ~ if `data` itself held a compressed message set, the
+        // messages point into the buffer owned by that inner set:
+        // keep that buffer alive (nothing refers to `data` any more)
+        let raw_data = match ms.raw_data {
+            Cow::Owned(inner) => Cow::Owned(inner),
+            Cow::Borrowed(_) => Cow::Owned(data),
+        };
         return Ok(MessageSet {
-            raw_data: Cow::Owned(data),
+            raw_data,
             messages: ms.messages,
         });
     }
